@@ -72,7 +72,7 @@ type realised struct {
 	text     string // full content
 	badLine  int    // physical line of the planted malformed line (0 = none)
 	badText  string
-	failAt   int // byte offset at which an injected read failure happens (-1 = none)
+	failAt   int    // byte offset at which an injected read failure happens (-1 = none)
 	longText string // variant with a line longer than the scanner's buffer instead of a read failure
 	missing  bool
 }
@@ -340,7 +340,9 @@ func runCliCase(c cliCase, dir string, useBin bool, report func(string, string, 
 					return strSrc(r.longText)
 				}
 				if r.failAt >= 0 {
-					return func() io.Reader { return &faultReader{data: []byte(r.text), failAt: r.failAt, style: r.failAt % 3, err: e} }
+					return func() io.Reader {
+						return &faultReader{data: []byte(r.text), failAt: r.failAt, style: r.failAt % 3, err: e}
+					}
 				}
 				return strSrc(r.text)
 			}
